@@ -182,6 +182,13 @@ namespace adm {
       AudioTrack createAudioTrack(NodePtr audioTrackNode) {
         TrackId track_id = parseAttribute<TrackId>(audioTrackNode, "trackID");
         AudioTrack audioTrack(track_id);
+        auto formatLabel = parseOptionalAttribute<FormatDescriptor>(
+            audioTrackNode, "formatLabel", &parseFormatLabel);
+        auto formatDefinition = parseOptionalAttribute<FormatDescriptor>(
+            audioTrackNode, "formatDefinition", &parseFormatDefinition);
+        if (formatLabel || formatDefinition) {
+          audioTrack.set(checkFormat(formatLabel, formatDefinition));
+        }
         auto atu_elements =
             detail::findElements(audioTrackNode, "audioTrackUIDRef");
         for (auto atu_element : atu_elements) {
@@ -194,7 +201,15 @@ namespace adm {
           NodePtr transportTrackFormatNode) {
         TransportId tr_id = parseAttribute<TransportId>(
             transportTrackFormatNode, "transportID", &parseTransportId);
-        return TransportTrackFormat{tr_id};
+        TransportTrackFormat transportTrackFormat{tr_id};
+        setOptionalAttribute<TransportName>(transportTrackFormatNode,
+                                            "transportName",
+                                            transportTrackFormat);
+        setOptionalAttribute<NumTracks>(transportTrackFormatNode, "numTracks",
+                                        transportTrackFormat);
+        setOptionalAttribute<NumIds>(transportTrackFormatNode, "numIDs",
+                                     transportTrackFormat);
+        return transportTrackFormat;
       }
 
       void parseAllAudioTracks(NodePtr transportTrackFormatNode,
